@@ -321,6 +321,17 @@ func (c *FnCtx) globalVar(env *Env, o *types.Var) Val {
 		}
 	}
 	srt := c.sortOf(o.Type())
+	if !c.E.assigned[o] {
+		// never assigned anywhere in the loaded packages: an (unknown) constant, immune to havoc
+		name := "GC_" + sanitize(o.Pkg().Path()+"."+o.Name())
+		if !c.declSet[name] {
+			c.declConst(name, srt)
+			if inv := c.typeInv(name, o.Type(), env.st); inv != "true" {
+				c.facts = append(c.facts, inv)
+			}
+		}
+		return Val{T: name, Typ: o.Type()}
+	}
 	t := c.heapGet(env.st, key, srt, o.Type())
 	c.assumeInv(env.st, t, o.Type())
 	return Val{T: t, Typ: o.Type()}
